@@ -46,7 +46,7 @@ func c04Family(r *rand.Rand) []map[string][]string {
 
 var c04Generic = []map[string][]string{
 	{"X-A": {"1"}}, {"X-A": {"2"}}, {"X-A": {"1", "2"}}, {"X-A": {"1", "3"}}, {"X-A": {"1, 2"}}, {"X-A": {""}}, {"X-A": {" 1"}},
-	{"X-A": {"a"}}, {"X-A": {"A"}},
+	{"X-A": {"a"}}, {"X-A": {"A"}}, {"X-A": {"caf\xe9"}}, {"X-A": {"caf\xe8"}}, {"X-A": {"caf\xef\xbf\xbd"}},
 	{"Accept-Encoding": {"gzip"}}, {"Accept-Encoding": {"gzip, br"}}, {"Accept-Encoding": {"br"}}, {"Accept-Encoding": {"identity"}}, {"Accept-Encoding": {"gzip;q=0"}},
 	{"Accept-Language": {"en"}}, {"Accept-Language": {"en, fr;q=0.5"}}, {"Accept-Language": {"fr"}}, {"Accept-Language": {"en;q=0.5, fr"}},
 	{"Accept": {"text/html"}}, {"Accept": {"application/json"}}, {"Accept": {"text/html;level=1"}},
